@@ -210,7 +210,23 @@ def outer_unit(mode):
     spec_impls = []
 
     # ---- contracts of the inner gadget functions, imported as stubs (proved in r1cs_<mode> / r1cs_fwd_<mode>)
+    _proving = {}
+    for pu in (fwd_unit(mode), r1.unit(mode)):
+        for it_ in pu.items:
+            if it_.mode == "verify" and it_.file == INN:
+                for f_ in it_.fns:
+                    if not f_.variant:
+                        _proving[(pu.name, it_.header, f_.name)] = f_
+
+    def _norm(t):
+        return re.sub(r'\s+', ' ', (t or "").replace("pv(", "pvi(")).strip()
+
     def istub(hdr, fn, proved, header_out="impl InnerElementVar", **kw):
+        # the imported contract must be the proving unit's contract (modulo the rename pv -> pvi of the inner type's view)
+        pf = _proving.get((proved, hdr, fn.name))
+        if pf is None or _norm(pf.ensures) != _norm(fn.ensures) or _norm(pf.requires) != _norm(fn.requires):
+            from vx.rsscan import LostAnchor
+            raise LostAnchor(f"imported contract {proved} :: {hdr} :: {fn.name} differs from the proving unit's contract")
         fn = dataclasses.replace(fn, subst=list(fn.subst) + ren)
         items.append(Item(INN, hdr, [fn], mode="stub", proved_in=proved, header_out=header_out, **kw))
     for (hdr, tr, m, rhs_t, view, post) in (
